@@ -267,6 +267,83 @@ impl Report {
         }
     }
 
+    /// Like `run_parallel`, for work that may never return (a hang is itself an observation):
+    /// detached worker threads report progress; a worker whose current step exceeds `deadline_s`
+    /// is abandoned (it dies with the process) and `on_hang(item, context)` supplies the outcome.
+    pub fn run_parallel_watchdog(
+        &mut self,
+        n: usize,
+        deadline_s: u64,
+        f: impl Fn(usize, &Progress) -> Outcome + Send + Sync + 'static,
+        on_hang: impl Fn(usize, &str) -> Outcome,
+    ) {
+        use std::sync::mpsc;
+        use std::sync::Arc;
+        let threads = std::thread::available_parallelism().map_or(8, |n| n.get()).min(n.max(1));
+        let next = Arc::new(AtomicUsize::new(0));
+        let f = Arc::new(f);
+        let (tx, rx) = mpsc::channel::<(usize, Outcome)>();
+        let mut workers: Vec<Progress> = Vec::new();
+        let spawn = |workers: &mut Vec<Progress>| {
+            let p = Progress::default();
+            workers.push(p.clone());
+            let (next, f, tx) = (next.clone(), f.clone(), tx.clone());
+            std::thread::spawn(move || loop {
+                let i = next.fetch_add(1, Ordering::SeqCst);
+                if i >= n {
+                    p.set_item(None);
+                    break;
+                }
+                p.set_item(Some(i));
+                let o = match guarded(|| f(i, &p)) {
+                    Ok(o) => o,
+                    Err(pn) => {
+                        let mut o = Outcome::default();
+                        o.harness_error = Some(format!("scenario {i}: uncaught panic at {}:{}: {}", pn.file, pn.line, pn.message));
+                        o
+                    }
+                };
+                if p.abandoned() || tx.send((i, o)).is_err() {
+                    break;
+                }
+            });
+        };
+        for _ in 0..threads {
+            spawn(&mut workers);
+        }
+        let mut results: Vec<(usize, Outcome)> = Vec::new();
+        let mut done = 0usize;
+        while done < n {
+            match rx.recv_timeout(std::time::Duration::from_millis(500)) {
+                Ok(r) => {
+                    results.push(r);
+                    done += 1;
+                }
+                Err(_) => {
+                    let now = clock::real_now_ns();
+                    let mut respawn = 0;
+                    for w in &workers {
+                        if let Some((item, since, ctx)) = w.current() {
+                            if !w.abandoned() && now.saturating_sub(since) > deadline_s * 1_000_000_000 {
+                                w.abandon();
+                                results.push((item, on_hang(item, &ctx)));
+                                done += 1;
+                                respawn += 1;
+                            }
+                        }
+                    }
+                    for _ in 0..respawn {
+                        spawn(&mut workers);
+                    }
+                }
+            }
+        }
+        results.sort_by_key(|(i, _)| *i);
+        for (_, o) in results {
+            self.merge(o);
+        }
+    }
+
     /// Write evidence, print verdict lines, and return the process exit code.
     pub fn finish(mut self) -> i32 {
         let wall_s = (clock::real_now_ns() - self.start_ns) as f64 / 1e9;
@@ -374,6 +451,12 @@ impl Report {
         for (sig, what, n) in &known_sigs {
             println!("KNOWN-FINDING: property={} {} [{} occurrences; signature {}]", self.property, what, n, sig);
         }
+        // listed findings that this run did not happen to reproduce are still announced
+        for (sig, what) in known.all_for(&self.property) {
+            if !known_sigs.iter().any(|(s, _, _)| *s == sig) {
+                println!("KNOWN-FINDING: property={} {} [0 occurrences in this run; signature {}]", self.property, what, sig);
+            }
+        }
         let mut code = 0;
         for (i, (sig, v, n)) in new_sigs.iter().enumerate() {
             let rp = format!("{dir}/evidence/replay/{}-{}-{}.json", self.property, self.seed, i);
@@ -424,7 +507,49 @@ impl KnownFindings {
         }
         Self { open }
     }
+    pub fn all_for(&self, property: &str) -> Vec<(String, String)> {
+        self.open.iter().filter(|(p, _, _)| p == property).map(|(_, s, w)| (s.clone(), w.clone())).collect()
+    }
     pub fn open(&self, property: &str, sig: &str) -> Option<String> {
         self.open.iter().find(|(p, s, _)| p == property && s == sig).map(|(_, _, w)| w.clone())
+    }
+}
+
+/// Progress of a detached worker: which item it is on and what it was last doing.
+#[derive(Clone, Default)]
+pub struct Progress {
+    inner: std::sync::Arc<Mutex<ProgressInner>>,
+}
+
+#[derive(Default)]
+struct ProgressInner {
+    item: Option<usize>,
+    since: u64,
+    context: String,
+    abandoned: bool,
+}
+
+impl Progress {
+    fn set_item(&self, item: Option<usize>) {
+        let mut g = self.inner.lock().unwrap();
+        g.item = item;
+        g.since = clock::real_now_ns();
+        g.context.clear();
+    }
+    /// Mark the start of a step that is expected to return quickly.
+    pub fn step(&self, context: impl FnOnce() -> String) {
+        let mut g = self.inner.lock().unwrap();
+        g.since = clock::real_now_ns();
+        g.context = context();
+    }
+    fn current(&self) -> Option<(usize, u64, String)> {
+        let g = self.inner.lock().unwrap();
+        g.item.map(|i| (i, g.since, g.context.clone()))
+    }
+    fn abandon(&self) {
+        self.inner.lock().unwrap().abandoned = true;
+    }
+    fn abandoned(&self) -> bool {
+        self.inner.lock().unwrap().abandoned
     }
 }
